@@ -123,7 +123,12 @@ func seqJobList(prop, tier string) []*SeqJob {
 	case "C17":
 		return c17Jobs(tier)
 	case "C16":
-		return c16Jobs(tier)
+		// the reporter's use of the size calculator (what it charges per metric against what the encoder then writes
+		// for it) is the "measured size is an upper bound" clause of C16 seen from the outside: the accounting lemmas
+		// of C12 run here too, under this property
+		// (... and the compositions of C12: a datagram longer than the limit is the sum of measured sizes that were no
+		// upper bounds)
+		return append(c16Jobs(tier), borrow("C16", c12LemmaJob(tier)), borrow("C16", c12BucketTagLengthJob(tier)), borrow("C16", c12Jobs(tier)[0]))
 	case "C15":
 		return c15Jobs(tier)
 	case "C12":
@@ -282,4 +287,11 @@ func replaySeq(v *Violation) int {
 	}
 	fmt.Printf("VIOLATION property=%s clause=%q\n%s\n", v.Property, cl, det)
 	return 1
+}
+
+// borrow registers a job of a sibling property under prop as well (the clause it checks is part of both statements).
+func borrow(prop string, j *SeqJob) *SeqJob {
+	c := *j
+	c.Property = prop
+	return &c
 }
